@@ -260,9 +260,8 @@ def main(tier, replay=None):
     for p in engine.run_shards(_shard, nshards, common.verif_seed(), tier=tier, n_cases=total // nshards):
         rep.merge(p)
     runner = _Runner(Reporter(PID, tier, RULE))
-    for bucket, b in rep.buckets.items():
-        if b["case"] and b["case"].get("ops"):
-            b["case"] = engine.minimise(runner, b["case"], bucket, budget=40)
+    for bucket in list(rep.buckets):
+        engine.minimise_bucket(runner, rep, bucket, budget=40)
     docs.cleanup()
     rep.exhaustive = None
     return rep.finish()
